@@ -614,7 +614,9 @@ def check(pid, tier, seed):
             model = run_model(comp, lines) if lines else {}
             proj = cspec.get("proj")
             divs = compare(comp, lines, model, proj)
-            mons = [m for m in merged["mons"] if m["prop"] == pid]
+            mons = [m for m in merged["mons"] if m["prop"] in (pid, "*")]
+            for m in mons:
+                m["prop"] = pid
             known, new = split_known(pid, mons, findings)
             known_hits += known
             for d in divs:
@@ -667,7 +669,7 @@ def check(pid, tier, seed):
                 f = os.path.join(workdir, "shrink.in")
                 open(f, "w").write(cl + "\n")
                 _, rep = run_harness(hbin, comp, seed, 0, tier, workdir, "shrink", replay=f)
-                _, fresh = split_known(pid, [x for x in rep["mons"] if x["prop"] == pid], findings)
+                _, fresh = split_known(pid, [x for x in rep["mons"] if x["prop"] in (pid, "*")], findings)
                 return bool(fresh)
             try:
                 body["shrunk_history_line"] = ddmin_history(hbin, m["component"], body["history_line"], still, workdir)
@@ -693,7 +695,7 @@ def check(pid, tier, seed):
                 n = cspec["quick"] * 10
                 _, rep = run_harness(hbin, comp, seed + 7919, n, tier, workdir, "search", targeted=True,
                                      shards=8, extra_env=cspec.get("env"))
-                hits = [m for m in rep["mons"] if m["prop"] == pid]
+                hits = [m for m in rep["mons"] if m["prop"] in (pid, "*")]
                 _, hits = split_known(pid, hits, findings)
                 if hits:
                     found = (comp, hits, rep)
